@@ -354,3 +354,74 @@ func VerifC14_Dispatch() {
 	// no text parses as an address here, so everything must be rejected (and nothing may panic)
 	verifrt.Assert(r == nil && err != nil, "dispatch.reject")
 }
+
+// ---- concrete specification texts (the layer below the ParseIP stub) ----
+//
+// The harnesses above replace the address-text parser by a stub that answers placeholder texts with
+// symbolic addresses, so they do not depend on how an address text is read. This table closes that
+// gap for the text level: concrete specifications (the shapes of the repository's own test table
+// plus texts the documented grammar excludes: zones, mixed families, reversed bounds, over-long
+// prefixes) go through the real ParseIPRange - whatever text parser it uses - and the accepted set
+// is compared with the expected first/last addresses for EVERY probe address (the probe is symbolic).
+
+type verifC14Text struct {
+	spec     string
+	ok       bool
+	lhi, llo uint64 // first address (128-bit, IPv4 as ::ffff:a.b.c.d)
+	rhi, rlo uint64 // last address
+}
+
+const verifV4 = uint64(0xffff) << 32
+
+var verifC14Texts = []verifC14Text{
+	{"192.0.2.7", true, 0, verifV4 | 0xC0000207, 0, verifV4 | 0xC0000207},
+	{"192.0.2.0-192.0.2.10", true, 0, verifV4 | 0xC0000200, 0, verifV4 | 0xC000020A},
+	{"192.0.2.0-192.0.2.0", true, 0, verifV4 | 0xC0000200, 0, verifV4 | 0xC0000200},
+	{"192.0.2.0/24", true, 0, verifV4 | 0xC0000201, 0, verifV4 | 0xC00002FE},
+	{"192.0.2.77/24", true, 0, verifV4 | 0xC0000201, 0, verifV4 | 0xC00002FE},
+	{"192.0.2.0/255.255.255.0", true, 0, verifV4 | 0xC0000201, 0, verifV4 | 0xC00002FE},
+	{"127.0.0.1/8", true, 0, verifV4 | 0x7F000001, 0, verifV4 | 0x7FFFFFFE},
+	{"192.0.2.4/31", true, 0, verifV4 | 0xC0000204, 0, verifV4 | 0xC0000205},
+	{"192.0.2.9/32", true, 0, verifV4 | 0xC0000209, 0, verifV4 | 0xC0000209},
+	{"192.0.2.0/0", true, 0, verifV4 | 0x00000001, 0, verifV4 | 0xFFFFFFFE},
+	{"::ffff:192.0.2.1", true, 0, verifV4 | 0xC0000201, 0, verifV4 | 0xC0000201},
+	{"2001:db8::5", true, 0x20010db800000000, 5, 0x20010db800000000, 5},
+	{"::1", true, 0, 1, 0, 1},
+	{"2001:db8::/64", true, 0x20010db800000000, 1, 0x20010db800000000, 0xfffffffffffffffe},
+	{"2001:db8::-2001:db8::ff", true, 0x20010db800000000, 0, 0x20010db800000000, 0xff},
+	{"fd00::/127", true, 0xfd00000000000000, 0, 0xfd00000000000000, 1},
+	{"fd00::7/128", true, 0xfd00000000000000, 7, 0xfd00000000000000, 7},
+	// rejected
+	{"", false, 0, 0, 0, 0},
+	{"192.0.2.", false, 0, 0, 0, 0},
+	{"192.0.2.0/", false, 0, 0, 0, 0},
+	{"192.0.2.0-", false, 0, 0, 0, 0},
+	{"-192.0.2.0", false, 0, 0, 0, 0},
+	{"192.0.2.10-192.0.2.0", false, 0, 0, 0, 0},
+	{"192.0.2.0/33", false, 0, 0, 0, 0},
+	{"2001:db8::/129", false, 0, 0, 0, 0},
+	{"192.0.2.0/255.0.255.0", false, 0, 0, 0, 0},
+	{"192.0.2.0-2001:db8::1", false, 0, 0, 0, 0},
+	{"2001:db8::-192.0.2.10", false, 0, 0, 0, 0},
+	{"2001:db8::/ffff::", false, 0, 0, 0, 0},
+	{"host.example", false, 0, 0, 0, 0},
+	{"fe80::1%eth0", false, 0, 0, 0, 0},
+	{"fe80::%eth0/64", false, 0, 0, 0, 0},
+	{"fe80::1%a-fe80::5%b", false, 0, 0, 0, 0},
+	{"fe80::1-fe80::5%b", false, 0, 0, 0, 0},
+	{"192.0.2.0/::ffff:255.255.255.0%lo", false, 0, 0, 0, 0},
+}
+
+func VerifC14_Texts() {
+	tc := verifC14Texts[verifrt.Choice("text", len(verifC14Texts))]
+	verifC14 = verifC14Env{}
+	r, err := ParseIPRange(tc.spec)
+	verifrt.Assert((err == nil) == tc.ok, "texts.accept")
+	verifrt.Assert((r == nil) == (err != nil), "texts.result-or-error")
+	if err != nil || r == nil {
+		return
+	}
+	probe, qhi, qlo := verifProbe()
+	want := verifLE128(tc.lhi, tc.llo, qhi, qlo) && verifLE128(qhi, qlo, tc.rhi, tc.rlo)
+	verifrt.Assert(r.Contains(probe) == want, "texts.member")
+}
